@@ -191,6 +191,69 @@ class Spec:
             out['distribution']['oracle_last_error'] = self._oracle_last_error
         return out
 
+    def shrink(self, ctx, failure, budget_s=12.0):
+        """Delta-debugging of a failing history: drop calls, then lines, then halves of lines, as long as the oracle still
+        reports the same class.  Only for cases that stand alone (no variants, no generator-predicted expectation)."""
+        import time as _t
+        case = failure.get('case')
+        if not isinstance(case, dict) or case.get('kind') != 'H' or case.get('variants') or case.get('meta'):
+            return failure
+        cls = failure['class']
+        t0 = _t.time()
+
+        def fails(c):
+            if _t.time() - t0 > budget_s:
+                return None
+            fs, _, _ = self.run_oracle(ctx, [c])
+            for f in fs:
+                if f['class'] == cls:
+                    return f
+            return None
+        best = failure
+        cur = json.loads(json.dumps(case))
+        changed = True
+        while changed and _t.time() - t0 < budget_s:
+            changed = False
+            # drop whole calls (never the last one)
+            k = 0
+            while k < len(cur['calls']) - 1:
+                cand = dict(cur, calls=cur['calls'][:k] + cur['calls'][k + 1:])
+                f = fails(cand)
+                if f:
+                    cur, best, changed = cand, f, True
+                else:
+                    k += 1
+            # drop lines, then halves of the remaining lines
+            for ci in range(len(cur['calls'])):
+                lines = cur['calls'][ci]['src'].split('\n')
+                i = 0
+                while i < len(lines) and len(lines) > 1:
+                    cand_lines = lines[:i] + lines[i + 1:]
+                    cand = dict(cur, calls=[dict(c) for c in cur['calls']])
+                    cand['calls'][ci]['src'] = '\n'.join(cand_lines)
+                    f = fails(cand)
+                    if f:
+                        lines, cur, best, changed = cand_lines, cand, f, True
+                    else:
+                        i += 1
+                for i in range(len(lines)):
+                    for half in (0, 1):
+                        l = lines[i]
+                        if len(l) < 8:
+                            continue
+                        nl = l[len(l) // 2:] if half == 0 else l[:len(l) // 2]
+                        cand_lines = lines[:i] + [nl] + lines[i + 1:]
+                        cand = dict(cur, calls=[dict(c) for c in cur['calls']])
+                        cand['calls'][ci]['src'] = '\n'.join(cand_lines)
+                        f = fails(cand)
+                        if f:
+                            lines, cur, best, changed = cand_lines, cand, f, True
+                            break
+        if best is not failure:
+            best = dict(best)
+            best['shrunk_from'] = {'calls': len(case['calls']), 'chars': sum(len(c['src']) for c in case['calls'])}
+        return best
+
     def check_witness(self, ctx, entry):
         case = entry.get('witness')
         if not case:
